@@ -276,7 +276,8 @@ static void safe_case(const vh::Json& sc, vh::Out& out, const vh::Args& args) {
         owned.reset(build(sc["r"], T, brng, nv, Bytes())); fill_dns(owned.get(), false, brng); obj = owned.get();
         // the request has been sent: serialising it filled in what libtins derives (protocol numbers, lengths, checksums), which the
         // matchers of some layers compare with what an error message quotes
-        try { (void)obj->serialize(); } catch (std::exception&) {}
+        // (half of the stacks - and every one that is shown the error quoting it; the others are matched as crafted, never serialised)
+        if (src == "unreach" || (fnv(label) >> 3) % 2 == 0) try { (void)obj->serialize(); } catch (std::exception&) {}
         std::unique_ptr<PDU> rp(build(sc["m"], T, brng, nv, Bytes())); fill_dns(rp.get(), true, brng); reply = rp->serialize();
         // source "unreach": the destination-unreachable error that quotes THIS request (addresses mirrored as in the reply), so that the
         // quoted-datagram comparison behind the type test sees every truncation of a quote that agrees with the request
